@@ -30,3 +30,61 @@ pub fn predict_ops(text: &[u8], pf: &[u32; 19], dist: &[[[u32; 3]; 2]; 13], cnt:
     core::mem::forget(blk);
     ops
 }
+
+/// Matcher stand-in for cross-build equivalence of predict_block (C04): at the `Box<dyn HashChainHolder>` seam, every
+/// answer is a pure function of the query and of tables handed in by the harness (identical for the two builds).
+pub struct XContract { pub ans: [[u32; 3]; 4], pub hops: [u32; 4], pub nupd: u32 }
+impl XContract {
+    fn q(&self, offset: u32, prev_len: u32, max_depth: u32, input: &PreflateInput) -> MatchResult {
+        let i = (offset.wrapping_add(input.pos().wrapping_mul(2)).wrapping_add(self.nupd).wrapping_add(prev_len).wrapping_add(max_depth) % 4) as usize;
+        let a = self.ans[i];
+        let p = input.pos() + offset;
+        let rem = if input.size() > p { input.size() - p } else { 0 };
+        match a[0] {
+            0 => if rem >= 3 && p >= 1 && a[1] >= 3 && a[1] <= 258 && a[1] <= rem && a[2] >= 1 && a[2] <= p { MatchResult::Success(PreflateTokenReference::new(a[1], a[2], false)) } else { MatchResult::NoMoreMatchesFound },
+            1 => MatchResult::DistanceLargerThanHop0(a[1], a[2]),
+            2 => MatchResult::NoInput,
+            3 => MatchResult::NoMoreMatchesFound,
+            _ => MatchResult::MaxChainExceeded(a[1]),
+        }
+    }
+}
+impl HashChainHolder for XContract {
+    fn update_hash(&mut self, length: u32, _input: &PreflateInput) { self.nupd = self.nupd.wrapping_add(length); }
+    fn match_token_0(&self, prev_len: u32, max_depth: u32, input: &PreflateInput) -> MatchResult { self.q(0, prev_len, max_depth, input) }
+    fn match_token_1(&self, prev_len: u32, max_depth: u32, input: &PreflateInput) -> MatchResult { self.q(1, prev_len, max_depth, input) }
+    fn calculate_hops(&self, target: &PreflateTokenReference, input: &PreflateInput) -> Result<u32> {
+        let h = self.hops[(target.dist().wrapping_add(target.len()).wrapping_add(input.pos()) % 4) as usize];
+        if h == 0 { err_exit_code(ExitCode::MatchNotFound, "") } else { Ok(h) }
+    }
+    fn hop_match(&self, _len: u32, _hops: u32, _input: &PreflateInput) -> Result<u32> { err_exit_code(ExitCode::MatchNotFound, "") }
+    fn verify_hash(&self, _dist: Option<PreflateTokenReference>) {}
+    fn checksum(&self, _checksum: &mut crate::bit_helper::DebugHash) {}
+}
+/// the correction sequence predict_block emits for a block of exactly N tokens starting at cursor p0, matcher = XContract
+pub fn predict_ops_contract<const N: usize>(text: &[u8], pf: &[u32; 19], ans: &[[u32; 3]; 4], hops: &[u32; 4], dynamic: bool,
+                            is_ref: &[bool; N], lit: &[u8; N], len: &[u32; N], dst: &[u32; N], irr: &[bool; N], last: bool, p0: u32) -> Ops {
+    let params = crate::preflate_parameter_estimator::verif_export::from_flat(pf).predictor;
+    let mut blk = PreflateTokenBlock::new(if dynamic { BlockType::DynamicHuff } else { BlockType::StaticHuff });
+    let mut i = 0;
+    while i < N {
+        if is_ref[i] { blk.tokens.push(PreflateToken::new_reference(len[i], dst[i], irr[i])); } else { blk.tokens.push(PreflateToken::Literal(lit[i])); }
+        i += 1;
+    }
+    let mut tp = TokenPredictor {
+        state: Box::new(XContract { ans: *ans, hops: *hops, nupd: 0 }),
+        params,
+        pending_reference: None,
+        current_token_count: 0,
+        max_token_count: params.max_token_count.into(),
+        input: PreflateInput::new(text),
+    };
+    tp.input.advance(p0);
+    let mut ops = Ops::new();
+    let r = tp.predict_block(&blk, &mut ops, last);
+    if r.is_err() { ops.n = 999; }
+    core::mem::forget(r);
+    core::mem::forget(tp);
+    core::mem::forget(blk);
+    ops
+}
